@@ -296,3 +296,43 @@ def r10_3_evaluate_once(ctx: Ctx) -> None:
             run.ok("R10.3", f"process:cache-return:path{i}")
         else:
             run.fail("R10.3", f"process:cache-return:path{i}", "the early return for an already-evaluated node does not return that node", fi=proc, node=p.node)
+
+
+def r10_4_who_may_attach(ctx: Ctx, rule: str = "R10.4") -> None:
+    """attach_payload is called only where a materialization has just been evaluated."""
+    run, m = ctx.run, ctx.m
+    run.rule(
+        rule,
+        "attach_payload is called only in the Materialization arms of iteration Engine.execute and "
+        "Processor._process_recursive (compilation, diagnostics and tree building never attach payloads)",
+        expected_min=3,
+    )
+    allowed = {(IT_ENGINE, "Engine.execute"), (PROCESSOR, "Processor._process_recursive")}
+    for fi in m.all_functions():
+        calls = [c for c in iter_calls(fi.node) if call_attr(c) == "attach_payload"]
+        if not calls:
+            continue
+        for c in calls:
+            recv = src(c.func.value) if isinstance(c.func, ast.Attribute) else "?"
+            inst = f"{fi.module.rel}:{fi.qualname}:{recv}.attach_payload"
+            if (fi.module.rel, fi.qualname) not in allowed:
+                run.fail(
+                    rule,
+                    inst,
+                    f"`{src(c)[:70]}` attaches a payload in {fi.qualname}: outside execution/processing of a materialization nothing may "
+                    "change a relation, and a payload cached on a shared node is reused wherever that node appears",
+                    fi=fi,
+                    node=c,
+                )
+                continue
+            # inside the sanctioned functions: only within the Materialization arm
+            in_arm = False
+            for n in ast.walk(fi.node):
+                if isinstance(n, ast.Match):
+                    for case in n.cases:
+                        if "Materialization" in src(case.pattern) and any(x is c for b in case.body for x in ast.walk(b)):
+                            in_arm = True
+            if in_arm:
+                run.ok(rule, inst)
+            else:
+                run.fail(rule, inst, f"`{src(c)[:70]}` is outside the Materialization arm of {fi.qualname}", fi=fi, node=c)
